@@ -152,10 +152,10 @@ func init() {
 	reg(&Prop{ID: "C04", Level: "fault_enumeration",
 		Quick:    Tier{Cases: 4800, PerJob: 300, Seconds: 70},
 		Thorough: Tier{Cases: 400000, PerJob: 5000, Seconds: 1500},
-		Rule: "one case = generated index (0..200 chunks, sizes <= max, random IDs, arbitrary extra feature flags, SHA512/256 or SHA256 process digest) written with Index.WriteTo; the bytes must parse with the independent caibx parser to the same table (tail marker offsets/sizes included); read back through a fragmenting stream reader, LocalIndexStore or RemoteHTTPIndex+HTTPIndexHandler (also stored through the HTTP client) it must equal what was written; then EVERY strict prefix (stream) or <= 600 evenly spaced prefixes plus the boundary lengths (stores), two swapped offsets, a chunk enlarged beyond max and a flipped digest flag must each be rejected; 1/10 of the cases re-encode a casync-made fixture byte-identically; sub_evaluations = reads; distinct = distinct tapes; non-trivial = a fault was applied",
+		Rule: "one case = generated index (0..200 chunks, sizes <= max, random IDs, arbitrary extra feature flags, SHA512/256 or SHA256 process digest) written with Index.WriteTo; the bytes must parse with the independent caibx parser to the same table (tail marker offsets/sizes included); read back through a fragmenting stream reader, LocalIndexStore, RemoteHTTPIndex+HTTPIndexHandler (also stored through the HTTP client) or S3IndexStore against the in-harness S3 endpoint (read side) it must equal what was written; then EVERY strict prefix (stream) or <= 600 evenly spaced prefixes plus the boundary lengths (stores), two swapped offsets, a chunk enlarged beyond max and a flipped digest flag must each be rejected; 1/10 of the cases re-encode a casync-made fixture byte-identically; sub_evaluations = reads; distinct = distinct tapes; non-trivial = a fault was applied",
 		Assumptions: []string{
 			"the round-trip half is a pure function of the index; it runs here as the fault-free configuration of the same harness (DESIGN.md C04 honest limit)",
-			"console (stdin/stdout) and S3 index stores are not exercised",
+			"the console (stdin/stdout) index store and S3IndexStore.StoreIndex (multipart upload) are not exercised",
 		},
 		Real: []string{"Index.WriteTo", "IndexFromReader", "FormatDecoder", "FormatEncoder", "LocalIndexStore", "RemoteHTTPIndex", "HTTPIndexHandler"},
 		Stub: []string{"HTTP transport", "fragmenting reader", "fault injector on stored index bytes"},
